@@ -86,6 +86,13 @@ def text_atomizer(table, strict=True):
     """Atomizer from a table {normalised source text: atom key}.  A key may start with '!' to denote the
     negation of an atom (e.g. 'x is None' -> '!x_present').  Compound nodes (and/or/not/ifexp) return None."""
     def atomize(n):
+        if isinstance(n, (ast.BoolOp, ast.IfExp, ast.UnaryOp)):
+            try:
+                tt = unparse(n)
+            except Exception:
+                tt = None
+            if tt in table:
+                return table[tt]
         if isinstance(n, (ast.BoolOp, ast.IfExp)):
             return None
         if isinstance(n, ast.UnaryOp) and isinstance(n.op, ast.Not):
@@ -122,6 +129,101 @@ def always_exits(stmts):
     return False
 
 
+def _has_exit(stmts):
+    """Does the statement list contain a return/raise/continue/break that leaves the *enclosing* block?"""
+    for st in stmts:
+        if isinstance(st, (ast.Return, ast.Raise, ast.Continue, ast.Break)):
+            return True
+        if isinstance(st, ast.Expr) and isinstance(st.value, ast.Call) and unparse(st.value.func) in ('sys.exit', 'exit', 'os._exit'):
+            return True
+        if isinstance(st, ast.If) and (_has_exit(st.body) or _has_exit(st.orelse)):
+            return True
+        if isinstance(st, (ast.With,)) and _has_exit(st.body):
+            return True
+        if isinstance(st, ast.Try) and (_has_exit(st.body) or _has_exit(st.orelse) or _has_exit(st.finalbody) or any(_has_exit(h.body) for h in st.handlers)):
+            return True
+        if isinstance(st, (ast.For, ast.While)):
+            # return/raise inside a loop leave the enclosing block too; break/continue do not
+            for n in ast.walk(st):
+                if isinstance(n, (ast.Return, ast.Raise)):
+                    return True
+    return False
+
+
+def _and(a, b):
+    if a is True:
+        return b
+    if b is True:
+        return a
+    if a is False or b is False:
+        return False
+    return ast.BoolOp(op=ast.And(), values=[a, b])
+
+
+def _or(a, b):
+    if a is False:
+        return b
+    if b is False:
+        return a
+    if a is True or b is True:
+        return True
+    return ast.BoolOp(op=ast.Or(), values=[a, b])
+
+
+def _not(a):
+    if a is True:
+        return False
+    if a is False:
+        return True
+    return ast.UnaryOp(op=ast.Not(), operand=a)
+
+
+def pass_formula(stmts):
+    """Propositional condition (ast expr, or True/False) under which control falls through a statement
+    list, ignoring state changes inside it.  Loops and try blocks are assumed to fall through."""
+    f = True
+    for st in stmts:
+        if isinstance(st, (ast.Return, ast.Raise, ast.Continue, ast.Break)):
+            return False
+        if isinstance(st, ast.Expr) and isinstance(st.value, ast.Call) and unparse(st.value.func) in ('sys.exit', 'exit', 'os._exit'):
+            return False
+        if isinstance(st, ast.If):
+            pb, po = pass_formula(st.body), pass_formula(st.orelse)
+            if pb is True and po is True:
+                continue
+            g = _or(_and(st.test, pb), _and(_not(st.test), po))
+            f = _and(f, g)
+        elif isinstance(st, ast.With):
+            f = _and(f, pass_formula(st.body))
+        if f is False:
+            return False
+    return f
+
+
+def sibling_guard(sib):
+    """(test, polarity, 'guard') contributed by a preceding sibling statement, or None."""
+    if not isinstance(sib, ast.If):
+        return None
+    if not sib.orelse and always_exits(sib.body):
+        return (sib.test, False, 'guard')
+    if sib.orelse and always_exits(sib.orelse) and not _has_exit(sib.body):
+        return (sib.test, True, 'guard')
+    if _has_exit(sib.body) or _has_exit(sib.orelse):
+        f = pass_formula([sib])
+        if f is True:
+            return None
+        if f is False:
+            f = ast.Constant(value=False)
+        ast.copy_location(f, sib)
+        for n in ast.walk(f):
+            if not hasattr(n, 'lineno'):
+                ast.copy_location(n, sib)
+            if not hasattr(n, '_module'):
+                n._module = getattr(sib, '_module', None)
+        return (f, True, 'guard')
+    return None
+
+
 def path_condition(node, stop=None):
     """List of (test_expr, polarity, kind) enclosing `node` inside its function: `if` tests with the branch
     taken, `while` tests, loop iterables ('for', iter, target) and dominating early-exit guards
@@ -136,10 +238,9 @@ def path_condition(node, stop=None):
             if isinstance(blk, list) and child in blk:
                 # early-exit guards among preceding siblings
                 for sib in blk[:blk.index(child)]:
-                    if isinstance(sib, ast.If) and not sib.orelse and always_exits(sib.body):
-                        local.append((sib.test, False, 'guard'))
-                    elif isinstance(sib, ast.If) and sib.orelse and always_exits(sib.orelse) and not always_exits(sib.body):
-                        local.append((sib.test, True, 'guard'))
+                    g = sibling_guard(sib)
+                    if g is not None:
+                        local.append(g)
                 if isinstance(parent, ast.If):
                     local.insert(0, (parent.test, field == 'body', 'if'))
                 elif isinstance(parent, ast.While) and field == 'body':
@@ -153,8 +254,9 @@ def path_condition(node, stop=None):
     if parent is not None and isinstance(parent, (ast.FunctionDef, ast.AsyncFunctionDef)) and child in parent.body:
         pre = []
         for sib in parent.body[:parent.body.index(child)]:
-            if isinstance(sib, ast.If) and not sib.orelse and always_exits(sib.body):
-                pre.append((sib.test, False, 'guard'))
+            g = sibling_guard(sib)
+            if g is not None:
+                pre.append(g)
         conds = pre + conds
     return conds
 
